@@ -10,6 +10,7 @@ from hypothesis.stateful import initialize, rule
 from vlib.harness import SubCheck, make_trace_machine, must, must_raise, require
 
 PROPERTY_ID = "C10"
+TECHNIQUE = 'property-based testing (Hypothesis) against brute-force per-shot statistics; stateful rule-based machine for one Measurements object edited between queries'
 RULE = (
     "1..40 shots of width 1..6 drawn from a small pool (heavy repetition), Ising operators with 0..6 "
     "Z-terms on drawn qubit subsets (overlapping, repeated, constants) and real coefficients; drawn "
